@@ -28,6 +28,19 @@ def passloop_model(out, tier):
             ("refuted: " + " ".join(l.strip() for l in r.out.splitlines() if "is violated" in l)) if refuted else "not refuted at this bound"
         if cfg == "PassLoop_old1" and not refuted:
             raise ToolError("negative control PassLoop_old1 was not refuted: the model does not distinguish the repaired scheme")
+    # the rounds of value analysis and ecall termination in Manager::gen_full_cfg
+    rp = run_tlc("Pipeline", cfg="Pipeline", workers=8, heap="12g", timeout=1800)
+    out.add_tlc(rp)
+    if rp.rc != 0:
+        raise ToolError("Pipeline.tla: the as-built model of the pass rounds violates its design properties:\n" + rp.out[-2500:])
+    info["Pipeline N=3 (rounds of value analysis and ecall termination repeated until nothing is cut)"] = \
+        {"distinct_states": rp.distinct, "result": "SweepBound, Consistent, EdgesStopAtExits, RoundsBound, PTerminates hold"}
+    ro = run_tlc("Pipeline", cfg="Pipeline_old", workers=8, heap="12g", timeout=1800)
+    out.add_tlc(ro)
+    if "is violated" not in ro.out:
+        raise ToolError("negative control Pipeline_old (two fixed rounds) was not refuted")
+    info["Pipeline_old (negative control: two fixed rounds, the pipeline before b8ae840)"] = \
+        "refuted: " + " ".join(l.strip() for l in ro.out.splitlines() if "is violated" in l)
     if tier == "thorough":
         r = run_tlc("PassLoop", cfg="PassLoop_n4", workers=12, heap="24g", timeout=7200)
         out.add_tlc(r)
